@@ -88,6 +88,8 @@ def dec_expiry(sx):
 KUNIV = [1, 2, 3, 4, 'x', 'y', None, 2.0, 5.0, D(2020, 1, 1)]
 JUNIV = ['u', 'v', 1]
 VALS = [0, 1, 2, 7, 'p', 'q', None, 0.5, 2.5]
+# (not `data` / `expiry`: reserved slots - a parameter of f of that name receives the previous value / the expiry AND is outer-joined
+# with the default None, round k2 notes)
 ARG_NAMES = ['self', 'self', 'function', 'on', 'key', 'col', 'columns']
 
 
@@ -217,7 +219,7 @@ def gen_case(rng, full=False):
     expiry = None
     tag = 'scalars' if not has_table else 'tables%d' % kinds.count('t')
     dkeys = None
-    if has_table and rng.random() < 0.5:
+    if has_table and rng.random() < 0.5 and 'data' not in params:
         dkeys = rand_keys(rng, on, base)
         inputs.append(('data', make_table(rng, on, dkeys, 'data', ['old1', 'old2', 'old3', None])))
         tag += '+data'
@@ -515,7 +517,8 @@ def laws(rng, tier, ctx):
                     vals.append(v if ok else defaults[p])
                 else:
                     vals.append(inputs[p])
-            old, ok_data = lookup(inputs['data'], on, k) if 'data' in inputs else (None, False)
+            # (a SCALAR `data` - only when f has a parameter of that name - is the previous value of every row)
+            old, ok_data = (lookup(inputs['data'], on, k) if isinstance(inputs['data'], dictable) else (inputs['data'], True)) if 'data' in inputs else (None, False)
             ex = lookup(expiry, on, k)[0] if isinstance(expiry, dictable) else expiry
             if is_nat(ex):
                 ex = None                                                    # the missing date is no expiry date
